@@ -96,9 +96,9 @@ func lookupSuite(name string) *explore.Suite { return suites[name] }
 // Seeds: scripted event prefixes that drive the real cluster into regions the
 // budgets cannot reach from boot (DESIGN 2.4).
 var (
-	// S-split (3 voters): n0 and n1 are both campaigning for term 3, n2 has the
-	// shorter log and has heard nothing of terms 1-2; every vote request is
-	// still in flight.
+	// S-split (3 voters): n0 and n1 are both asking for prevotes for term 3 (n1
+	// led term 1, n0 was a candidate of term 2), n2 has the shorter log and has
+	// heard nothing of terms 1-2; every vote request is still in flight.
 	seedSplit = sim.MustParse(
 		"timeout n1", "rt 1>0:RV#0 a=2", "rt 1>0:RV#1", "rt 1>0:AE#0",
 		"timeout n0", "rt 0>2:RV#0 a=2", "rt 1>0:AE#1", "timeout n0", "timeout n1",
